@@ -212,6 +212,8 @@ pub enum Stmt {
     While(Vec<Stmt>),
     Switch { cases: Vec<Vec<Stmt>>, default: Vec<Stmt> },
     Block(Vec<Stmt>),
+    /// verbatim statement text (used by property-specific generators)
+    Raw(String),
 }
 
 #[derive(Clone, PartialEq, Eq, Debug, Serialize, Deserialize)]
